@@ -22,15 +22,15 @@ import (
 func init() { registry["C10"] = c10 }
 
 type c10Datagram struct {
-	sender int
-	n      int // position in the sender's stream
-	data   []byte
-	class  string
+	sender  int
+	n       int // position in the sender's stream
+	data    []byte
+	class   string
 	verdict string // event | error | either
-	exp    rm.CallExp
-	serial uint32
-	seqid  uint32
-	sentAt int64
+	exp     rm.CallExp
+	serial  uint32
+	seqid   uint32
+	sentAt  int64
 }
 
 type c10Delivered struct {
@@ -42,14 +42,14 @@ type c10Delivered struct {
 }
 
 type c10Listener struct {
-	mu        sync.Mutex
-	connected []int64
-	events    []c10Delivered
-	errors    []string
-	acks      atomic.Int64
-	slowEvery int
+	mu             sync.Mutex
+	connected      []int64
+	events         []c10Delivered
+	errors         []string
+	acks           atomic.Int64
+	slowEvery      int
 	boundAtConnect bool
-	addr      string
+	addr           string
 }
 
 func (l *c10Listener) OnConnected() {
